@@ -237,7 +237,7 @@ const T_KINDS = {
   tpl: (n) => '`' + Array.from({ length: n }, (_, i) => '${o.m' + i + '()}').join('|') + '`'
 }
 function familyT (tier, opts = {}) {
-  const ns = tier === 'thorough' ? [1, 2, 3, 4, 5, 6, 7, 8, 9, 10, 11, 12, 13, 52, 60] : [1, 2, 4, 5, 6, 7, 8, 9]
+  const ns = tier === 'thorough' ? [1, 2, 3, 4, 5, 6, 7, 8, 9, 10, 11, 12, 13, 52, 60, 130] : [1, 2, 4, 5, 6, 7, 8, 9]
   const r = enumerate([{ name: 'k1', symbols: Object.keys(T_KINDS), free: true }, { name: 'n1', symbols: ns, free: true }, { name: 'k2', symbols: Object.keys(T_KINDS), free: true }, { name: 'n2', symbols: ns, free: true }, { name: 'where', symbols: ['fnbody', 'block'], free: true }], {})
   const leaves = []
   for (const l of r.leaves) {
